@@ -11,6 +11,8 @@ CONSTANTS
   FlushMax = TRUE
   FoldCancel = TRUE
   SpillCut = FALSE
+  LateSnapshot = FALSE
+  LateSnapFetch = FALSE
   SplitAppend = FALSE
   Gen = FALSE
   PrintCex = FALSE
